@@ -60,7 +60,7 @@ impl Engine for OwnEngine {
             }
             return l;
         }
-        gen_source(rng, &mut l, true);
+        gen_source(rng, &mut l, true, true);
         let n = rng.range(8, if tier == Tier::Thorough { 60 } else { 28 });
         // (type, id) pairs requested so far: removals and reloads aim at entries that probably exist
         let mut seen: Vec<(&'static str, &'static str)> = vec![];
